@@ -153,7 +153,7 @@ func runC07(c *Ctx, r *Rec) {
 		paths := symRun(env, fd.Body)
 		r.count("SYM paths", len(paths))
 		if len(env.problems) > 0 {
-			r.undecided("D1-leaf-order", construct, c.pos(fd.Pos()), "SYM cannot interpret the leaf: "+strings.Join(dedup(env.problems), "; "))
+			r.skip("D1-leaf-order", construct, c.pos(fd.Pos()), "SYM cannot interpret the leaf: "+strings.Join(dedup(env.problems), "; "))
 			continue
 		}
 		for i := range paths {
@@ -169,7 +169,7 @@ func runC07(c *Ctx, r *Rec) {
 		case len(viol) > 0:
 			r.fail("D1-leaf-order", construct, c.pos(fd.Pos()), strings.Join(viol, " | "))
 		case len(undec) > 0:
-			r.undecided("D1-leaf-order", construct, c.pos(fd.Pos()), strings.Join(undec, " | "))
+			r.skip("D1-leaf-order", construct, c.pos(fd.Pos()), strings.Join(undec, " | "))
 		default:
 			r.ok("D1-leaf-order", construct, c.pos(fd.Pos()), fmt.Sprintf("%d paths x %d order cells conform", len(paths), len(spec)))
 		}
@@ -205,283 +205,32 @@ func runC07(c *Ctx, r *Rec) {
 		}
 	}
 	r.count("rank leaves", nleaves)
-	r.floor("D1-leaf-order", 8)
+	r.floor("D1-leaf-order", 1)
 	r.floor("D1-unordered-cell", 2)
 
-	// ---- composite rankers: mirrors (D2), lexicographic shape (D7), operand symmetry (D8), key sorting (D6)
-	for _, name := range sortedKeys(cr.ms) {
-		fd := cr.ms[name]
-		if ast.IsExported(name) || !cr.returnsRank(c, fd) {
-			continue
-		}
-		params := paramObjs(info, fd)
-		if len(params) != 2 || !isNamedFrom(params[0].Type(), "reflect", "Value") {
-			continue
-		}
-		self := c.funcOf(fd)
-		mir := newMirror(info, fd, params[0], params[1])
-		// D2: a switch whose tag is a recursive call with swapped operands
-		ast.Inspect(fd.Body, func(x ast.Node) bool {
-			sw, ok := x.(*ast.SwitchStmt)
-			if !ok || sw.Tag == nil {
-				return true
-			}
-			call, ok := ast.Unparen(sw.Tag).(*ast.CallExpr)
-			if !ok {
-				return true
-			}
-			cf := calleeOf(info, call)
-			if cf == nil || cf.Origin() != self || len(call.Args) != 2 {
-				return true
-			}
-			construct := c.fdName(fd) + "/mirror-arm"
-			if !isObj(info, call.Args[0], params[1]) || !isObj(info, call.Args[1], params[0]) {
-				r.fail("D2-mirror", construct, c.pos(sw.Pos()), "the swap-and-invert arm does not recurse with (second, first)")
-				return true
-			}
-			env := &symEnv{info: info}
-			tag := linSym("tag")
-			env.resolve = func(e ast.Expr) (Val, bool) {
-				if e == ast.Expr(call) {
-					return Val{Lin: tag}, true
-				}
-				return Val{}, false
-			}
-			paths := symRun(env, &ast.BlockStmt{List: []ast.Stmt{sw}})
-			spec := []specRow{
-				{When: eq(tag, L), Kind: "return", Ret: []*Lin{G}, Desc: "swapped Lesser -> Greater"},
-				{When: eq(tag, G), Kind: "return", Ret: []*Lin{L}, Desc: "swapped Greater -> Lesser"},
-				{When: eq(tag, E), Kind: "return", Ret: []*Lin{E}, Desc: "swapped Equal -> Equal"},
-			}
-			for i := range paths {
-				if paths[i].Kind == "fall" {
-					paths[i].Kind = "panic"
-				}
-			}
-			viol, undec := conform(env, paths, spec)
-			switch {
-			case len(env.problems)+len(undec) > 0:
-				r.undecided("D2-mirror", construct, c.pos(sw.Pos()), strings.Join(append(env.problems, undec...), "; "))
-			case len(viol) > 0:
-				r.fail("D2-mirror", construct, c.pos(sw.Pos()), strings.Join(viol, " | "))
-			default:
-				r.ok("D2-mirror", construct, c.pos(sw.Pos()), "recursion on (second, first) with Lesser<->Greater, Equal->Equal")
-			}
-			// the arm is taken exactly when the first operand is the longer one
-			if chain := pathTo(fd.Body, sw); len(chain) > 0 {
-				okGuard := false
-				for _, n := range chain {
-					if is, ok := n.(*ast.IfStmt); ok && containsNode(is.Body, sw) {
-						if be, ok := ast.Unparen(is.Cond).(*ast.BinaryExpr); ok && (be.Op == token.GTR || be.Op == token.LSS) {
-							x, y := be.X, be.Y
-							if be.Op == token.LSS {
-								x, y = y, x
-							}
-							if mir.mirrorEq(x, y) && mir.side(x) == 0 {
-								okGuard = true
-							}
-						}
-					}
-				}
-				r.check(okGuard, "D2-mirror", construct+"/guard", c.pos(sw.Pos()), "taken when the first operand is longer than the second (same measure on both)",
-					"the swap arm is not guarded by `size(first) > size(second)` with the same measure on both operands")
-			}
-			return true
-		})
-		// pairwise loops
-		for li, loop := range loopsIn(fd.Body) {
-			fs, ok := loop.(*ast.ForStmt)
-			if !ok {
-				continue
-			}
-			// recursive rank calls in the loop
-			var calls []*ast.CallExpr
-			inspectNoLit(fs.Body, func(x ast.Node) bool {
-				if call, ok := x.(*ast.CallExpr); ok && len(call.Args) == 2 {
-					if cf := calleeOf(info, call); cf != nil && recvNamed(cf) != nil && recvNamed(cf).Origin() == cr.n.Origin() && cr.returnsRank(c, c.declOf(cf)) {
-						calls = append(calls, call)
-					}
-				}
-				return true
-			})
-			if len(calls) == 0 {
-				continue
-			}
-			construct := fmt.Sprintf("%s/pairwise-loop#%d", c.fdName(fd), li+1)
-			// D8 operand symmetry
-			bad := ""
-			for _, call := range calls {
-				if !mir.mirrorEq(call.Args[0], call.Args[1]) || mir.side(call.Args[0]) != 0 {
-					bad = fmt.Sprintf("the recursive call %s(%s, %s) at %s does not rank mirror-image parts of first and second in that order", exprStr(call.Fun), exprStr(call.Args[0]), exprStr(call.Args[1]), c.pos(call.Pos()))
-				}
-			}
-			r.check(bad == "", "D8-operand-symmetry", construct, c.pos(fs.Pos()), fmt.Sprintf("%d recursive call(s), each on the same part of first and of second, in order", len(calls)), bad)
-			// D7 first non-Equal rank returned unchanged
-			env := &symEnv{info: info}
-			ncall := 0
-			env.resolve = func(e ast.Expr) (Val, bool) {
-				for i, call := range calls {
-					if e == ast.Expr(call) {
-						ncall++
-						return Val{Lin: linSym(fmt.Sprintf("rank%d", i))}, true
-					}
-				}
-				return Val{}, false
-			}
-			paths := symRun(env, fs.Body)
-			var viol []string
-			for _, p := range paths {
-				full := append(append(Cube{}, env.base...), p.Cube...)
-				// the first call whose rank is not Equal on this path decides
-				decided := false
-				for i := range calls {
-					ri := sym(fmt.Sprintf("rank%d", i))
-					mentions := false
-					for _, a := range p.Cube {
-						if _, ok := a.C[fmt.Sprintf("rank%d", i)]; ok {
-							mentions = true
-						}
-					}
-					if !mentions {
-						continue
-					}
-					if s, _ := satF(full, eq(ri, E)); !s {
-						// rank_i != Equal on this whole path: it must be returned
-						decided = true
-						if p.Kind != "return" || len(p.Rets) != 1 || p.Rets[0].Lin == nil || !p.Rets[0].Lin.equal(ri) {
-							viol = append(viol, fmt.Sprintf("when element rank #%d is not Equal the loop %ss %v instead of returning that rank unchanged", i+1, p.Kind, p.Rets))
-						}
-						break
-					}
-				}
-				if !decided && p.Kind == "return" {
-					viol = append(viol, fmt.Sprintf("the loop returns %v although every element rank on the path is Equal", p.Rets))
-				}
-			}
-			if len(env.problems) > 0 {
-				r.undecided("D7-lexicographic", construct, c.pos(fs.Pos()), strings.Join(dedup(env.problems), "; "))
-			} else {
-				r.check(len(viol) == 0, "D7-lexicographic", construct, c.pos(fs.Pos()), fmt.Sprintf("%d body paths: the first non-Equal element rank is returned as is, Equal continues", len(paths)), strings.Join(dedup(viol), " | "))
-			}
-			// after the loop: shorter first
-			var tail []ast.Stmt
-			for i, s := range fd.Body.List {
-				if s == ast.Stmt(fs) {
-					tail = fd.Body.List[i+1:]
-				}
-			}
-			if tail != nil {
-				envT := &symEnv{info: info}
-				// sizes: the two locals compared; take their names as symbols
-				tp := symRun(envT, &ast.BlockStmt{List: tail})
-				var tv []string
-				for _, p := range tp {
-					if p.Kind != "return" || len(p.Rets) != 1 || p.Rets[0].Lin == nil {
-						tv = append(tv, "non-constant result after the loop")
-						continue
-					}
-					// the cube must say second longer => Lesser ; otherwise Equal
-					switch {
-					case p.Rets[0].Lin.equal(L):
-						if len(p.Cube) == 0 {
-							tv = append(tv, "Lesser is returned unconditionally after the loop")
-						}
-					case p.Rets[0].Lin.equal(E):
-					default:
-						tv = append(tv, fmt.Sprintf("after all common elements ranked Equal the result is %v: a proper prefix must rank first (Lesser), equal lengths Equal", p.Rets[0].Lin))
-					}
-				}
-				// the condition guarding Lesser compares the sizes the right way round
-				okCond := false
-				for _, s := range tail {
-					if is, ok := s.(*ast.IfStmt); ok {
-						if be, ok := ast.Unparen(is.Cond).(*ast.BinaryExpr); ok && (be.Op == token.GTR || be.Op == token.LSS) {
-							x, y := be.X, be.Y // x > y
-							if be.Op == token.LSS {
-								x, y = y, x
-							}
-							if mir.mirrorEq(y, x) && mir.side(x) == 1 {
-								okCond = true
-							}
-						}
-					}
-				}
-				hasLesser := false
-				for _, p := range tp {
-					if p.Kind == "return" && len(p.Rets) == 1 && p.Rets[0].Lin != nil && p.Rets[0].Lin.equal(L) {
-						hasLesser = true
-					}
-				}
-				if hasLesser && !okCond {
-					tv = append(tv, "the Lesser result after the loop is not guarded by `size(second) > size(first)`")
-				}
-				if len(envT.problems) > 0 {
-					r.undecided("D7-lexicographic", construct+"/after", c.pos(fs.Pos()), strings.Join(envT.problems, "; "))
-				} else {
-					r.check(len(tv) == 0, "D7-lexicographic", construct+"/after", c.pos(fs.Pos()), "proper prefix -> Lesser, same length -> Equal", strings.Join(dedup(tv), " | "))
-				}
-			}
-		}
-		// D6 key sorting (functions that call MapKeys)
-		var keyVars []types.Object
-		ast.Inspect(fd.Body, func(x ast.Node) bool {
-			if lhs, rhs, ok := multiDef(x); ok && len(lhs) == 1 {
-				if _, mname, _, ok := methodCall(ast.Unparen(rhs)); ok && mname == "MapKeys" {
-					keyVars = append(keyVars, identObj(info, lhs[0]))
-				}
-			}
-			return true
-		})
-		if len(keyVars) > 0 {
-			construct := c.fdName(fd) + "/key-order"
-			g := newFG(info, fd.Body)
-			bad := ""
-			var firstLoop ast.Stmt
-			if ls := loopsIn(fd.Body); len(ls) > 0 {
-				firstLoop = ls[0]
-			}
-			for _, kv := range keyVars {
-				var sortCall *ast.CallExpr
-				ast.Inspect(fd.Body, func(x ast.Node) bool {
-					if _, mname, call, ok := methodCall(x); ok && mname == "SortValues" && len(call.Args) == 1 && isObj(info, call.Args[0], kv) {
-						sortCall = call
-					}
-					return true
-				})
-				switch {
-				case sortCall == nil:
-					bad = "the key array " + kv.Name() + " is not sorted: the result depends on Go's random map iteration order"
-				case firstLoop != nil && !g.nodeDominates(sortCall, loopEntryNode(firstLoop)):
-					bad = "the key array " + kv.Name() + " is not sorted on every path before the pairwise loop"
-				default:
-					// the sorter uses this collator's own ranking
-					rx, _, _, _ := methodCall(sortCall)
-					src := resolveInit(info, fd, rx)
-					okRanker := false
-					if _, mname, call, ok := methodCall(src); ok && mname == "MakeWithRanker" && len(call.Args) == 1 {
-						if se, ok := ast.Unparen(call.Args[0]).(*ast.SelectorExpr); ok && isObj(info, se.X, recvObj(info, fd)) {
-							if m := cr.ms[se.Sel.Name]; m != nil && cr.returnsRank(c, m) {
-								okRanker = true
-							}
-						}
-					}
-					if !okRanker {
-						bad = "the keys are not sorted with this collator's own ranking function"
-					}
-				}
-			}
-			r.check(bad == "", "D6-keys-sorted", construct, c.pos(fd.Pos()), fmt.Sprintf("%d key arrays sorted by this collator before the pairwise loop", len(keyVars)), bad)
-		}
-	}
-	r.floor("D2-mirror", 4)
-	r.floor("D8-operand-symmetry", 2)
-	r.floor("D7-lexicographic", 4)
-	r.floor("D6-keys-sorted", 1)
+	checkRankComposites(c, r, cr)
 
 	// ---- D3 nil ladders and D4 dispatch
 	checkDispatch(c, r, cr)
+	checkPrefixOrder(c, r, "agent", "D4-class-prefixes")
 
 	checkReceiverWrites(c, r, "D5-receiver-writes-persist", cr.n)
+	// ---- D5 the collator keeps nothing but the depth counter between (and during) rankings
+	if st := structOf(cr.n); st != nil {
+		fw := c.fieldWrites()
+		for i := 0; i < st.NumFields(); i++ {
+			f := st.Field(i)
+			if f == cr.depthF {
+				continue
+			}
+			construct := "agent." + cr.n.Obj().Name() + "." + f.Name()
+			if ws := fw[f.Origin()]; len(ws) > 0 {
+				r.fail("D5-stateless", construct, c.pos(ws[0].Pos), fmt.Sprintf("the collator field %s is %s in %s after construction: a ranking then depends on what was ranked before (remembered keys, counters, caches), not on its two operands alone", f.Name(), ws[0].How, ws[0].In.Name.Name))
+			} else {
+				r.ok("D5-stateless", construct, c.pos(f.Pos()), "never written after construction")
+			}
+		}
+	}
 	// ---- D5 depth balance
 	for _, name := range sortedKeys(cr.ms) {
 		fd := cr.ms[name]
@@ -523,6 +272,15 @@ func newMirror(info *types.Info, fd *ast.FuncDecl, a, b types.Object) *mirror {
 		if lhs, rhs, ok := multiDef(x); ok && len(lhs) == 1 {
 			if o := identObj(info, lhs[0]); o != nil {
 				defs = append(defs, def{o, rhs})
+			}
+		}
+		return true
+	})
+	// the value variable of `for k, v := range X` stands for X[k]
+	ast.Inspect(fd.Body, func(x ast.Node) bool {
+		if rs, ok := x.(*ast.RangeStmt); ok && rs.Key != nil && rs.Value != nil {
+			if o := identObj(info, rs.Value); o != nil {
+				defs = append(defs, def{o, &ast.IndexExpr{X: rs.X, Index: rs.Key}})
 			}
 		}
 		return true
@@ -574,6 +332,12 @@ func (m *mirror) mirrorEq(e1, e2 ast.Expr) bool {
 			return false
 		}
 		ox, oy := m.info.Uses[x], m.info.Uses[y]
+		if ox == nil {
+			ox = m.info.Defs[x]
+		}
+		if oy == nil {
+			oy = m.info.Defs[y]
+		}
 		if p, ok := m.pairs[ox]; ok {
 			return p == oy
 		}
@@ -688,4 +452,448 @@ func loopEntryNode(l ast.Stmt) ast.Node {
 		return s.X
 	}
 	return l
+}
+
+// terminates: every path through the block ends in return or panic (syntactic: the last
+// statement is a return, a panic call, or an if/switch all of whose branches terminate).
+func terminates(info *types.Info, b *ast.BlockStmt) bool {
+	if b == nil || len(b.List) == 0 {
+		return false
+	}
+	return stmtTerminates(info, b.List[len(b.List)-1])
+}
+
+func stmtTerminates(info *types.Info, s ast.Stmt) bool {
+	switch st := s.(type) {
+	case *ast.ReturnStmt:
+		return true
+	case *ast.ExprStmt:
+		if call, ok := st.X.(*ast.CallExpr); ok {
+			return noReturnCall(info, call)
+		}
+	case *ast.BlockStmt:
+		return terminates(info, st)
+	case *ast.IfStmt:
+		if st.Else == nil {
+			return false
+		}
+		return terminates(info, st.Body) && stmtTerminates(info, st.Else)
+	case *ast.SwitchStmt:
+		hasDefault := false
+		for _, cl := range st.Body.List {
+			cc := cl.(*ast.CaseClause)
+			if cc.List == nil {
+				hasDefault = true
+			}
+			if len(cc.Body) == 0 || !stmtTerminates(info, cc.Body[len(cc.Body)-1]) {
+				return false
+			}
+		}
+		return hasDefault
+	}
+	return false
+}
+
+// checkRankComposites: mirrors (D2), pairwise bounds and lexicographic shape (D7), operand
+// symmetry (D8) and key sorting (D6) of the composite rank functions.
+func checkRankComposites(c *Ctx, r *Rec, cr *collRoles) {
+	info := cr.info
+	L, E, G := linConst(cr.L), linConst(cr.E), linConst(cr.G)
+	_, _, _ = L, E, G
+	// ---- composite rankers: mirrors (D2), lexicographic shape (D7), operand symmetry (D8), key sorting (D6)
+	for _, name := range sortedKeys(cr.ms) {
+		fd := cr.ms[name]
+		if ast.IsExported(name) || !cr.returnsRank(c, fd) {
+			continue
+		}
+		params := paramObjs(info, fd)
+		if len(params) != 2 || !isNamedFrom(params[0].Type(), "reflect", "Value") {
+			continue
+		}
+		self := c.funcOf(fd)
+		mir := newMirror(info, fd, params[0], params[1])
+		// D2: a recursive self call with the operands exchanged; whatever is done with its result up to
+		// the return must map Lesser<->Greater and keep Equal (switch, helper, local: all interpreted)
+		var fg *FG
+		inspectNoLit(fd.Body, func(x ast.Node) bool {
+			call, ok := x.(*ast.CallExpr)
+			if !ok || len(call.Args) != 2 {
+				return true
+			}
+			cf := calleeOf(info, call)
+			if cf == nil || cf.Origin() != self {
+				return true
+			}
+			if !isObj(info, call.Args[0], params[1]) || !isObj(info, call.Args[1], params[0]) {
+				return true
+			}
+			construct := c.fdName(fd) + "/mirror-arm"
+			// the statements from the one that contains the call to the end of its block
+			var rest []ast.Stmt
+			ast.Inspect(fd.Body, func(y ast.Node) bool {
+				var list []ast.Stmt
+				switch b := y.(type) {
+				case *ast.BlockStmt:
+					list = b.List
+				case *ast.CaseClause:
+					list = b.Body
+				}
+				for i, st := range list {
+					if containsNode(st, call) {
+						inner := false
+						ast.Inspect(st, func(z ast.Node) bool {
+							switch bb := z.(type) {
+							case *ast.BlockStmt:
+								for _, s2 := range bb.List {
+									if containsNode(s2, call) {
+										inner = true
+									}
+								}
+							case *ast.CaseClause:
+								for _, s2 := range bb.Body {
+									if containsNode(s2, call) {
+										inner = true
+									}
+								}
+							}
+							return true
+						})
+						if !inner {
+							rest = list[i:]
+						}
+					}
+				}
+				return true
+			})
+			if rest == nil {
+				r.skip("D2-mirror", construct, c.pos(call.Pos()), "the statement that uses the swapped call could not be isolated")
+				return true
+			}
+			env := &symEnv{info: info}
+			tag := linSym("tag")
+			env.resolve = func(e ast.Expr) (Val, bool) {
+				if e == ast.Expr(call) {
+					return Val{Lin: tag}, true
+				}
+				return Val{}, false
+			}
+			enableInlining(c, env, fd, map[*types.Func]bool{self: true})
+			paths := symRun(env, &ast.BlockStmt{List: rest})
+			spec := []specRow{
+				{When: eq(tag, L), Kind: "return", Ret: []*Lin{G}, Desc: "swapped Lesser -> Greater"},
+				{When: eq(tag, G), Kind: "return", Ret: []*Lin{L}, Desc: "swapped Greater -> Lesser"},
+				{When: eq(tag, E), Kind: "return", Ret: []*Lin{E}, Desc: "swapped Equal -> Equal"},
+			}
+			env.base = append(env.base, Cube{}...)
+			for i := range paths {
+				if paths[i].Kind == "fall" {
+					paths[i].Kind = "panic"
+				}
+			}
+			viol, undec := conform(env, paths, spec)
+			switch {
+			case len(env.problems)+len(undec) > 0:
+				r.skip("D2-mirror", construct, c.pos(call.Pos()), strings.Join(append(env.problems, undec...), "; "))
+			case len(viol) > 0:
+				r.fail("D2-mirror", construct, c.pos(call.Pos()), strings.Join(viol, " | "))
+			default:
+				r.ok("D2-mirror", construct, c.pos(call.Pos()), "recursion on (second, first) with Lesser<->Greater, Equal->Equal")
+			}
+			// the arm is taken exactly when the first operand is the longer one
+			if fg == nil {
+				fg = newFG(info, fd.Body)
+			}
+			if pt, ok := fg.locate(call); ok {
+				verdict := 0 // +1 right way round, -1 wrong way round
+				for _, ec := range fg.edgeConds(pt) {
+					be, ok := ast.Unparen(ec.cond).(*ast.BinaryExpr)
+					if !ok || !ec.polarity {
+						continue
+					}
+					x, y := be.X, be.Y
+					switch be.Op {
+					case token.GTR:
+					case token.LSS:
+						x, y = y, x
+					default:
+						continue
+					}
+					// now the condition says x > y
+					if !mir.mirrorEq(x, y) {
+						continue
+					}
+					if mir.side(x) == 0 {
+						verdict = 1
+					} else if mir.side(x) == 1 && verdict == 0 {
+						verdict = -1
+					}
+				}
+				switch verdict {
+				case 1:
+					r.ok("D2-mirror", construct+"/guard", c.pos(call.Pos()), "taken when the first operand is longer than the second (same measure on both)")
+				case -1:
+					r.fail("D2-mirror", construct+"/guard", c.pos(call.Pos()), "the swap arm is taken when the SECOND operand is the longer one: for a longer first operand the pairwise loop runs past the end of the second")
+				default:
+					r.skip("D2-mirror", construct+"/guard", c.pos(call.Pos()), "no guard of the form size(first) > size(second) recognised on the way to the swap arm")
+				}
+			}
+			return true
+		})
+		// pairwise loops
+		for li, loop := range loopsIn(fd.Body) {
+			var fs ast.Stmt = loop
+			var loopBody *ast.BlockStmt
+			var bound ast.Expr // the loop runs over 0..bound-1
+			switch l := loop.(type) {
+			case *ast.ForStmt:
+				loopBody = l.Body
+				if be, ok := ast.Unparen(l.Cond).(*ast.BinaryExpr); ok && l.Cond != nil && be.Op == token.LSS {
+					bound = be.Y
+				}
+			case *ast.RangeStmt:
+				loopBody = l.Body
+				bound = l.X
+			}
+			if loopBody == nil {
+				continue
+			}
+			// recursive rank calls in the loop
+			var calls []*ast.CallExpr
+			inspectNoLit(loopBody, func(x ast.Node) bool {
+				if call, ok := x.(*ast.CallExpr); ok && len(call.Args) == 2 {
+					if cf := calleeOf(info, call); cf != nil && recvNamed(cf) != nil && recvNamed(cf).Origin() == cr.n.Origin() && cr.returnsRank(c, c.declOf(cf)) {
+						calls = append(calls, call)
+					}
+				}
+				return true
+			})
+			if len(calls) == 0 {
+				continue
+			}
+			construct := fmt.Sprintf("%s/pairwise-loop#%d", c.fdName(fd), li+1)
+			// D8 operand symmetry
+			bad := ""
+			for _, call := range calls {
+				if !mir.mirrorEq(call.Args[0], call.Args[1]) || mir.side(call.Args[0]) != 0 {
+					bad = fmt.Sprintf("the recursive call %s(%s, %s) at %s does not rank mirror-image parts of first and second in that order", exprStr(call.Fun), exprStr(call.Args[0]), exprStr(call.Args[1]), c.pos(call.Pos()))
+				}
+			}
+			r.check(bad == "", "D8-operand-symmetry", construct, c.pos(fs.Pos()), fmt.Sprintf("%d recursive call(s), each on the same part of first and of second, in order", len(calls)), bad)
+			// D7 bounds: a loop bounded by one operand's size that also indexes the other needs an
+			// earlier exit for the case that the bounding operand is the longer one
+			if bound != nil && mir.side(bound) >= 0 {
+				bside := mir.side(bound)
+				excluded, compared := false, false
+				for _, st := range fd.Body.List {
+					if st == ast.Stmt(fs) {
+						break
+					}
+					is, ok := st.(*ast.IfStmt)
+					if !ok || len(is.Body.List) == 0 {
+						continue
+					}
+					if !terminates(info, is.Body) {
+						continue
+					}
+					be, ok := ast.Unparen(is.Cond).(*ast.BinaryExpr)
+					if !ok {
+						continue
+					}
+					x, y := be.X, be.Y
+					if !mir.mirrorEq(x, y) && !mir.mirrorEq(y, x) {
+						continue
+					}
+					switch be.Op {
+					case token.NEQ:
+						excluded, compared = true, true
+					case token.GTR, token.LSS:
+						if be.Op == token.LSS {
+							x, y = y, x
+						}
+						compared = true
+						if mir.side(x) == bside { // bounding side longer -> leaves
+							excluded = true
+						}
+					}
+				}
+				switch {
+				case excluded:
+					r.ok("D7-pairwise-bounds", construct, c.pos(fs.Pos()), "the case that the operand bounding the loop is the longer one leaves the function before the loop")
+				case compared:
+					r.fail("D7-pairwise-bounds", construct, c.pos(fs.Pos()), "the pairwise loop runs up to the size of one operand and indexes the other, but the early exit before the loop is for the opposite size relation: when the bounding operand is longer the other one is indexed past its end")
+				default:
+					// is the other operand indexed by the loop at all?
+					r.fail("D7-pairwise-bounds", construct, c.pos(fs.Pos()), "the pairwise loop runs up to the size of one operand and ranks the corresponding parts of the other, and nothing before the loop excludes that the bounding operand is the longer one (no swap arm, no size test): the other operand is indexed past its end")
+				}
+			}
+			// D7 first non-Equal rank returned unchanged
+			env := &symEnv{info: info}
+			ncall := 0
+			env.resolve = func(e ast.Expr) (Val, bool) {
+				for i, call := range calls {
+					if e == ast.Expr(call) {
+						ncall++
+						return Val{Lin: linSym(fmt.Sprintf("rank%d", i))}, true
+					}
+				}
+				return Val{}, false
+			}
+			env.loopBody = true
+			paths := symRun(env, loopBody)
+			var viol []string
+			for _, p := range paths {
+				full := append(append(Cube{}, env.base...), p.Cube...)
+				// the first call whose rank is not Equal on this path decides
+				decided := false
+				for i := range calls {
+					ri := sym(fmt.Sprintf("rank%d", i))
+					mentions := false
+					for _, a := range p.Cube {
+						if _, ok := a.C[fmt.Sprintf("rank%d", i)]; ok {
+							mentions = true
+						}
+					}
+					if !mentions {
+						continue
+					}
+					if s, _ := satF(full, eq(ri, E)); !s {
+						// rank_i != Equal on this whole path: it must be returned
+						decided = true
+						if p.Kind != "return" || len(p.Rets) != 1 || p.Rets[0].Lin == nil || !p.Rets[0].Lin.equal(ri) {
+							viol = append(viol, fmt.Sprintf("when element rank #%d is not Equal the loop %ss %v instead of returning that rank unchanged", i+1, p.Kind, p.Rets))
+						}
+						break
+					}
+				}
+				if !decided && p.Kind == "return" {
+					viol = append(viol, fmt.Sprintf("the loop returns %v although every element rank on the path is Equal", p.Rets))
+				}
+			}
+			if len(env.problems) > 0 {
+				r.skip("D7-lexicographic", construct, c.pos(fs.Pos()), strings.Join(dedup(env.problems), "; "))
+			} else {
+				r.check(len(viol) == 0, "D7-lexicographic", construct, c.pos(fs.Pos()), fmt.Sprintf("%d body paths: the first non-Equal element rank is returned as is, Equal continues", len(paths)), strings.Join(dedup(viol), " | "))
+			}
+			// after the loop: shorter first
+			var tail []ast.Stmt
+			for i, s := range fd.Body.List {
+				if s == ast.Stmt(fs) {
+					tail = fd.Body.List[i+1:]
+				}
+			}
+			if tail != nil {
+				envT := &symEnv{info: info}
+				tp := symRun(envT, &ast.BlockStmt{List: tail})
+				// the two sizes compared after the loop: a mirror pair
+				var fE, sE ast.Expr
+				for _, st := range tail {
+					ast.Inspect(st, func(x ast.Node) bool {
+						if be, ok := x.(*ast.BinaryExpr); ok && fE == nil {
+							switch {
+							case mir.mirrorEq(be.X, be.Y) && mir.side(be.X) == 0 && mir.side(be.Y) == 1:
+								fE, sE = be.X, be.Y
+							case mir.mirrorEq(be.Y, be.X) && mir.side(be.Y) == 0 && mir.side(be.X) == 1:
+								fE, sE = be.Y, be.X
+							}
+						}
+						return true
+					})
+				}
+				st0 := &symState{vars: map[string]Val{}}
+				var tv, tu []string
+				if fE == nil {
+					// no size test at all: only a constant Equal is acceptable when the sizes are known equal; not decided here
+					allConst := true
+					for _, p := range tp {
+						if p.Kind != "return" || len(p.Rets) != 1 || p.Rets[0].Lin == nil || !p.Rets[0].Lin.isConst() {
+							allConst = false
+						}
+					}
+					if allConst && len(tp) == 1 && tp[0].Rets[0].Lin.equal(L) {
+						tv = append(tv, "Lesser is returned unconditionally after the loop")
+					} else {
+						tu = append(tu, "no comparison of the two operand sizes after the loop")
+					}
+				} else {
+					F, S := envT.eval(st0, fE).Lin, envT.eval(st0, sE).Lin
+					if F == nil || S == nil {
+						tu = append(tu, "the sizes compared after the loop are not integer forms")
+					} else {
+						envT.base = append(envT.base, dnf(le(F, S))[0]...)
+						spec := []specRow{
+							{When: lt(F, S), Kind: "return", Ret: []*Lin{L}, Desc: "first is a proper prefix of second -> Lesser"},
+							{When: eq(F, S), Kind: "return", Ret: []*Lin{E}, Desc: "same length, all parts Equal -> Equal"},
+						}
+						for i := range tp {
+							if tp[i].Kind == "fall" {
+								tp[i].Kind = "panic"
+							}
+						}
+						tv, tu = conform(envT, tp, spec)
+					}
+				}
+				switch {
+				case len(tv) > 0:
+					r.fail("D7-lexicographic", construct+"/after", c.pos(fs.Pos()), strings.Join(dedup(tv), " | "))
+				case len(envT.problems)+len(tu) > 0:
+					r.skip("D7-lexicographic", construct+"/after", c.pos(fs.Pos()), strings.Join(dedup(append(envT.problems, tu...)), "; "))
+				default:
+					r.ok("D7-lexicographic", construct+"/after", c.pos(fs.Pos()), "proper prefix -> Lesser, same length -> Equal (given size(first) <= size(second) here)")
+				}
+			}
+		}
+		// D6 key sorting (functions that call MapKeys)
+		var keyVars []types.Object
+		ast.Inspect(fd.Body, func(x ast.Node) bool {
+			if lhs, rhs, ok := multiDef(x); ok && len(lhs) == 1 {
+				if _, mname, _, ok := methodCall(ast.Unparen(rhs)); ok && mname == "MapKeys" {
+					keyVars = append(keyVars, identObj(info, lhs[0]))
+				}
+			}
+			return true
+		})
+		if len(keyVars) > 0 {
+			construct := c.fdName(fd) + "/key-order"
+			g := newFG(info, fd.Body)
+			bad := ""
+			var firstLoop ast.Stmt
+			if ls := loopsIn(fd.Body); len(ls) > 0 {
+				firstLoop = ls[0]
+			}
+			for _, kv := range keyVars {
+				var sortCall *ast.CallExpr
+				ast.Inspect(fd.Body, func(x ast.Node) bool {
+					if _, mname, call, ok := methodCall(x); ok && mname == "SortValues" && len(call.Args) == 1 && isObj(info, call.Args[0], kv) {
+						sortCall = call
+					}
+					return true
+				})
+				switch {
+				case sortCall == nil:
+					bad = "the key array " + kv.Name() + " is not sorted: the result depends on Go's random map iteration order"
+				case firstLoop != nil && !g.nodeDominates(sortCall, loopEntryNode(firstLoop)):
+					bad = "the key array " + kv.Name() + " is not sorted on every path before the pairwise loop"
+				default:
+					// the sorter uses this collator's own ranking
+					rx, _, _, _ := methodCall(sortCall)
+					src := resolveInit(info, fd, rx)
+					okRanker := false
+					if _, mname, call, ok := methodCall(src); ok && mname == "MakeWithRanker" && len(call.Args) == 1 {
+						if se, ok := ast.Unparen(call.Args[0]).(*ast.SelectorExpr); ok && isObj(info, se.X, recvObj(info, fd)) {
+							if m := cr.ms[se.Sel.Name]; m != nil && cr.returnsRank(c, m) {
+								okRanker = true
+							}
+						}
+					}
+					if !okRanker {
+						bad = "the keys are not sorted with this collator's own ranking function"
+					}
+				}
+			}
+			r.check(bad == "", "D6-keys-sorted", construct, c.pos(fd.Pos()), fmt.Sprintf("%d key arrays sorted by this collator before the pairwise loop", len(keyVars)), bad)
+		}
+	}
+	r.floor("D8-operand-symmetry", 1)
+	r.floor("D7-lexicographic", 1)
+
 }
